@@ -161,13 +161,15 @@ def run_server(ctx, binp, args, env=None, timeout=900, case=None, race_key=None)
     return summ
 
 
-def absorb(ctx, summ):
+def absorb(ctx, summ, rerun=None):
     """vp.absorb, with harness observations (leaks, hangs, projections) of a run that restarts during a
-    shutdown filed under that defect's key."""
+    shutdown filed under that defect's key.  rerun: how --replay re-executes the run against the real code."""
     for m in summ.get("mismatches", []):
         case = m.get("case")
         if isinstance(case, dict) and restart_class(case.get("events") or []):
             m["key"] = "server/restart-during-shutdown:" + m["key"].split("/", 1)[1].split(":")[0]
+        if isinstance(case, dict) and rerun and "plan" not in case:
+            case["rerun"] = rerun
     notes = summ.get("notes") or {}
     summ = dict(summ)
     summ["notes"] = {k: v for k, v in notes.items() if k in ("mismatch_counts",)}
@@ -209,7 +211,7 @@ def inv_key(events, name):
     return ("server/restart-during-shutdown:" if restart_class(events) else "server/trace-inv:") + name
 
 
-def tv(ctx, mode, path, origin):
+def tv(ctx, mode, path, origin, rerun=None):
     """Validate one recorded file; turn rejections and violated properties into candidates."""
     cfg = "Trace_Server_" + mode
     consts = None
@@ -230,7 +232,7 @@ def tv(ctx, mode, path, origin):
                 e = evs[at - 1]
                 key = "server/trace-reject:%s%s" % (e["ev"], (":" + e["res"]) if e["res"] != "-" else "")
                 ctx.candidate(key, "the specification has no step for the recorded event %s (line %d of the run, %s)"
-                              % (json.dumps(e), at - first, origin), {"mode": mode, "events": r[:at - first], "origin": origin})
+                              % (json.dumps(e), at - first, origin), {"mode": mode, "events": r[:at - first], "origin": origin, "rerun": rerun})
         runs = [x for x in runs if x[0] + len(x[1]) < (at or 0)]   # the runs before the rejection were fully examined
     if inv or not tr.accepted:
         # attribute violated properties to single runs
@@ -240,7 +242,7 @@ def tv(ctx, mode, path, origin):
                 return
             for name in json.loads(t.vals.get("inv", "[]") or "[]"):
                 ctx.candidate(inv_key(r, name), "%s is violated on every explanation of an observed run (%s)" % (name, origin),
-                              {"mode": mode, "events": r, "origin": origin})
+                              {"mode": mode, "events": r, "origin": origin, "rerun": rerun})
         if inv:
             cands = [r for _, r in runs]
             if len(cands) > 40:
@@ -251,11 +253,12 @@ def tv(ctx, mode, path, origin):
 def record_tv(ctx, binp, mode, nruns, shards, tag):
     def one(k):
         out = os.path.join(ctx.out, "rec-%s-%s-%d.ndjson" % (tag, mode, k))
-        s = run_server(ctx, binp, ["record", mode, out, str(nruns)], env={"VERIF_SEED": str(ctx.seed * 1000 + k)}, timeout=1800)
+        rerun = {"kind": "record", "mode": mode, "nruns": nruns, "seed": ctx.seed * 1000 + k, "race": tag == "race"}
+        s = run_server(ctx, binp, ["record", mode, out, str(nruns)], env={"VERIF_SEED": str(rerun["seed"])}, timeout=1800, case=rerun)
         if s is not None:
-            absorb(ctx, s)
+            absorb(ctx, s, rerun)
         if os.path.exists(out):
-            tv(ctx, mode, out, "record %s seed %d (%s)" % (mode, ctx.seed * 1000 + k, tag))
+            tv(ctx, mode, out, "record %s seed %d (%s)" % (mode, rerun["seed"], tag), rerun)
     vp.parallel([lambda k=k: one(k) for k in range(shards)], maxpar=8)
 
 
@@ -322,8 +325,11 @@ def replay_plans(ctx, binp, mode, plans, name, timeout=900):
         ctx.candidate(key, "the race detector reports a data race in " + where, {"mode": mode, "plan": plans[0], "events": evs, "report": report})
         if not s.get("notes"):
             s = None
+    rerun = {"kind": "plans", "mode": mode, "file": pf, "race": binp.endswith("-race")}
+    if len(plans) == 1:
+        rerun["plan"] = plans[0]
     if s is not None:
-        absorb(ctx, s)
+        absorb(ctx, s, rerun)
         with vp._lock:
             n = ctx.notes.setdefault("gated", {"plans": 0, "plans_realised": 0, "steps_planned": 0, "steps_realised": 0, "projections_compared": 0})
             for k in n:
@@ -331,7 +337,7 @@ def replay_plans(ctx, binp, mode, plans, name, timeout=900):
             ex = ctx.notes.setdefault("not_realised_examples", [])
             ex += (s["notes"].get("not_realised_examples") or [])[:max(0, 4 - len(ex))]
     if os.path.exists(out):
-        tv(ctx, mode, out, "gated replay " + name)
+        tv(ctx, mode, out, "gated replay " + name, rerun)
     return s
 
 
@@ -357,7 +363,7 @@ def restart(ctx, binp, racebin):
 
 
 def gen_replay(ctx, binp, racebin):
-    n = 200 if ctx.quick else 5000
+    n = 200 if ctx.quick else 10000
     sets = [("tcp", "tcp"), ("pc", "pc"), ("twice", "tcp"), ("reseq", "tcp")]
 
     def one(cfgname, mode):
@@ -389,9 +395,7 @@ def confirm_with(ctx, binp):
         if "plan" in case and "mode" in case and "report" not in case:   # projection mismatch: force the same plan again, twice
             again = 0
             for k in range(2):
-                sub = vp.Ctx(ctx.id, ctx.tier, ctx.seed, replay="confirm")
-                sub.out = os.path.join(ctx.out, "confirm%d" % k)
-                os.makedirs(sub.out, exist_ok=True)
+                sub = _sub(ctx, "confirm%d" % k)
                 s = replay_plans(sub, binp, case["mode"], [case["plan"]], "confirm", timeout=180)
                 if any(x["key"] == c["key"] for x in sub.cands):
                     again += 1
@@ -403,7 +407,7 @@ def confirm_with(ctx, binp):
 def run(ctx):
     binp = ctx.build("server")
     racebin = ctx.build("server", race=True)
-    runs, shards = (40, 3) if ctx.quick else (150, 12)
+    runs, shards = (40, 3) if ctx.quick else (300, 16)
     stages = [lambda: mc(ctx), lambda: broken(ctx), lambda: restart(ctx, binp, racebin), lambda: gen_replay(ctx, binp, racebin)]
     for mode in ("tcp", "pc", "udp"):
         stages.append(lambda mode=mode: record_tv(ctx, binp, mode, runs, shards, "plain"))
@@ -424,20 +428,50 @@ def run(ctx):
                       confirm=confirm_with(ctx, binp))
 
 
+def _sub(ctx, name):
+    import copy
+    sub = copy.copy(ctx)
+    sub.cands, sub.notes, sub.samples, sub.tlc_runs = [], {}, [], []
+    sub.out = os.path.join(ctx.out, name)
+    os.makedirs(sub.out, exist_ok=True)
+    return sub
+
+
 def replay(ctx, path):
+    """Re-execute the case against the real code ($VERIF_REPO) and let the specification judge again."""
     rp = json.load(open(path))
     case = rp["case"]
-    binp = ctx.build("server", race=isinstance(case, dict) and "report" in case)
+    if not isinstance(case, dict):
+        raise vp.Infra("replay file has no re-executable case")
+    rerun = case.get("rerun") or {}
+    race = bool(rerun.get("race")) or "report" in case
+    binp = ctx.build("server", race=race)
     bad = False
-    if isinstance(case, dict) and "events" in case and "mode" in case and "plan" not in case:
+    if "plan" in case and "mode" in case:                      # one forced schedule: deterministic
+        replay_plans(ctx, binp, case["mode"], [case["plan"]], "replay", timeout=300)
+        bad = any(c["key"] == rp["key"] for c in ctx.cands)
+    elif rerun.get("kind") == "plans" and ("plan" in rerun or os.path.exists(rerun.get("file", ""))):
+        plans = [rerun["plan"]] if "plan" in rerun else split_plans(vp.read_ndjson(rerun["file"]))
+        replay_plans(ctx, binp, rerun["mode"], plans, "replay", timeout=1800)
+        bad = any(c["key"] == rp["key"] for c in ctx.cands)
+    elif rerun.get("kind") == "record":                        # un-gated: same seed, up to three attempts
+        for k in range(3):
+            sub = _sub(ctx, "try%d" % k)
+            out = os.path.join(sub.out, "rec.ndjson")
+            s = run_server(sub, binp, ["record", rerun["mode"], out, str(rerun["nruns"])], env={"VERIF_SEED": str(rerun["seed"])},
+                           timeout=1800, case=rerun)
+            if s is not None:
+                absorb(sub, s, rerun)
+            if os.path.exists(out):
+                tv(sub, rerun["mode"], out, "replay", rerun)
+            if any(c["key"] == rp["key"] for c in sub.cands):
+                bad = True
+                break
+    elif "events" in case and "mode" in case:                  # nothing to re-execute: the recorded trace is judged again
         evs = case["events"]
-        mode = case["mode"]
-        tr = ctx.tlc_trace("Trace_Server", evs, cfg="Trace_Server_" + mode)
+        tr = ctx.tlc_trace("Trace_Server", evs, cfg="Trace_Server_" + case["mode"])
         inv = json.loads(tr.vals.get("inv", "[]") or "[]")
         bad = (not tr.accepted) or any(inv_key(evs, n) == rp["key"] for n in inv)
-    elif isinstance(case, dict) and "plan" in case:
-        replay_plans(ctx, binp, case["mode"], [case["plan"]], "replay", timeout=180)
-        bad = any(c["key"] == rp["key"] for c in ctx.cands)
     else:
         raise vp.Infra("replay file has no re-executable case")
     if bad:
